@@ -23,6 +23,54 @@ SOILS = [
 PALETTE = [2.0, 2.5, 3.0, 3.25, 4.0, 4.75, 5.0, 6.5, 7.0, 7.5, 8.0, 8.5, 9.0, 9.25, 11.0, 12.0, 14.6, 19.5, 20.0, 22.0, 29.0, 30.0, 36.0]
 
 
+def file_soils(seed):
+    """soils for the constant-groundwater projects, written in BOTH soil file formats (3-character ids):
+    explicit values x stones in the top horizon (incl. a sandy top soil), mixed profiles (explicit values in the top horizon and
+    empty optional columns below, and the other way round), table route with stones.  (sid, groundwater level dm, horizons);
+    a horizon = (corg, texture, depth, ld, stone%, fc, wp, pv, sand, silt, clay), fc/wp/pv None = columns left empty"""
+    rnd = random.Random(seed * 31 + 5)
+    st = lambda: rnd.choice([24, 27, 30, 35, 40, 48, 55, 60])
+    ex = lambda: rnd.choice([(22, 9, 38), (31, 16, 45), (29, 19, 45), (25, 8, 40), (35, 12, 47), (18, 6, 36)])
+    E = None
+    return [
+        ("E3S", rnd.choice([99, 12, 6]), [(1.14, "ULS", 3, 2, st()) + ex() + (26, 63, 11), (0.40, "ULS", 20, 2, rnd.choice([0, 10])) + ex() + (26, 63, 11)]),
+        ("E4S", rnd.choice([99, 15]), [(0.90, "SL2", 4, 3, st()) + ex() + (73, 21, 6), (0.30, "SL4", 12, 3, st()) + ex() + (61, 27, 12),
+                                       (0.10, "SS", 20, 3, 0) + (15, 5, 38) + (88, 7, 5)]),
+        ("M1X", rnd.choice([99, 14]), [(1.10, "SL3", 3, 2, rnd.choice([0, 20])) + ex() + (65, 25, 10), (0.40, "SL4", 9, 3, 0, E, E, E, 61, 27, 12),
+                                       (0.10, "SS", 20, 3, 0, E, E, E, 90, 6, 4)]),
+        ("M2X", rnd.choice([99, 9]), [(1.30, "LT3", 3, 2, rnd.choice([0, 15]), E, E, E, 30, 30, 40), (0.40, "LT3", 20, 3, 0) + ex() + (30, 30, 40)]),
+        ("M3X", 99, [(0.90, "SL2", 3, 3, 0) + ex() + (73, 21, 6), (0.30, "SL4", 10, 3, 0, E, E, E, 61, 27, 12), (0.10, "SS", 20, 3, 0) + (15, 5, 38) + (88, 7, 5)]),
+        ("T6S", rnd.choice([99, 11]), [(1.20, "ULS", 3, 1, st(), E, E, E, 26, 63, 11), (0.40, "ULS", 20, 2, 15, E, E, E, 26, 63, 11)]),
+    ]
+
+
+def soil_lines_csv(soils):
+    out = []
+    f = lambda v: "" if v is None else "%d" % v
+    for sid, gwl, hz in soils:
+        for i, (c, tex, dep, ld, st, fc, wp, pv, sa, si, cl) in enumerate(hz):
+            first = i == 0
+            out.append("%s,%.2f,%s,%02d,%d,%02d,10,00,%s,%s,%s,%s,%s,%d,%d,%d,20,00,%s" % (
+                sid, c, tex, dep, ld, st, "12" if first else "", "%02d" % len(hz) if first else "", f(fc), f(wp), f(pv), sa, si, cl,
+                "%02d" % gwl if first else "   "))
+    return out
+
+
+def soil_file_txt(soils):
+    """fixed columns of LoadSoil (soil.go:96-190): SID [0:3] Corg [4:8] texture [9:12] depth [13:15] LD [16] stones [18:20] C/N [21:24]
+    root depth [32:34] horizons [35:37] FC [40:42] WP [43:45] PS [46:48] sand/silt/clay [49:51] [52:54] [55:57] drain [62:64] [67:70] GW [70:72]"""
+    out = ["SID Corg Te  Lb B ST C/N C/S Hy Rd NUHo  FC WP PS S% Si C% Lmd  drdp drfGW"]
+    f = lambda v: "  " if v is None else "%02d" % v
+    for sid, gwl, hz in soils:
+        for i, (c, tex, dep, ld, st, fc, wp, pv, sa, si, cl) in enumerate(hz):
+            first = i == 0
+            ln = "%-3s %4.2f %-3s %02d %d %02d 010 xxx 00 %2s %2s   %s %s %s %02d %02d %02d 00  20   0.0%02d" % (
+                sid, c, tex, dep, ld, st, "12" if first else "  ", "%02d" % len(hz) if first else "  ", f(fc), f(wp), f(pv), sa, si, cl, gwl)
+            assert len(ln) == 72 and ln[40:42] == f(fc) and ln[18:20] == "%02d" % st and ln[35:37].strip() in ("", "%02d" % len(hz)), ln
+            out.append(ln)
+    return "\n".join(out) + "\n"
+
+
 def soil_file():
     out = [HDR]
     for sid, hz, _ in SOILS:
@@ -111,6 +159,27 @@ def make_projects(ex, seed, thorough=False):
                 "10003 T1  SOYSM1    02 30 0 soy_maize",      # GW 16, AMPL 14
                 "end"]
         open(os.path.join(dst, "poly_%s.txt" % name), "w").write("\n".join(poly) + "\n")
+    # constant groundwater (GroundWaterFrom: soilfile), one project per soil file reader
+    fs = file_soils(seed)
+    for name, ext in (("c15s", "csv"), ("c15t", "txt")):
+        dst = os.path.join(ex, "project", name)
+        shutil.rmtree(dst, ignore_errors=True)
+        shutil.copytree(os.path.join(ex, "project", "c15g"), dst)
+        for fn in os.listdir(dst):
+            if "c15g" in fn:
+                os.rename(os.path.join(dst, fn), os.path.join(dst, fn.replace("c15g", name)))
+        os.remove(os.path.join(dst, "soil_%s.csv" % name))
+        cfgp = os.path.join(dst, "config.yml")
+        cfg = open(cfgp).read()
+        cfg, n1 = re.subn(r"(?m)^GroundWaterFrom:.*$", "GroundWaterFrom: soilfile", cfg)
+        cfg, n2 = re.subn(r"(?m)^SoilFileExtension:.*$", "SoilFileExtension: '%s'" % ext, cfg)
+        assert n1 == 1 and n2 == 1
+        open(cfgp, "w").write(cfg)
+        if ext == "csv":
+            open(os.path.join(dst, "soil_%s.csv" % name), "w").write("\n".join([HDR] + soil_lines_csv(fs)) + "\n")
+        else:
+            open(os.path.join(dst, "soil_%s.txt" % name), "w").write(soil_file_txt(fs))
+    info["file_soils"] = [{"sid": sid, "gw": gwl, "stones_top": hz[0][4], "kinds": ["table" if h[5] is None else "explicit" for h in hz]} for sid, gwl, hz in fs]
     return info
 
 
@@ -120,8 +189,8 @@ def batch_lines(thorough, seed, end_year_quick=1982, end_year_thorough=1990):
     base = "WeatherFolder=historical fcode=109_120 Altitude=73 Latitude=52.6732 poligonID=29872"
     lines = []
 
-    def add(proj, soil, plot, gw, ptf, tag):
-        end = "1231%d" % (end_year_thorough if thorough else end_year_quick)
+    def add(proj, soil, plot, gw, ptf, tag, end_year=None):
+        end = "1231%d" % (end_year or (end_year_thorough if thorough else end_year_quick))
         s = "project=%s %s soilId=%s plotNr=%d EndDate=%s resultfolder=R/c15_%d" % (proj, base, soil, plot, end, len(lines))
         if gw:
             s += " gwId=" + gw
@@ -148,4 +217,14 @@ def batch_lines(thorough, seed, end_year_quick=1982, end_year_thorough=1990):
         add("c15g", rnd.choice(["P1", "P2"]), 10001, rnd.choice(["G2", "G3"]), k, "ptf%d" % k)
         k2 = rnd.choice([1, 2, 3, 4])
         add("c15p", rnd.choice(["P1", "P2"]), rnd.choice([10001, 10003]), None, k2, "ptf%d-sinus" % k2)
+    # constant groundwater: stones x explicit values, mixed profiles, both soil file readers (short runs: nothing moves)
+    fsids = ["E3S", "E4S", "M1X", "M2X", "M3X", "T6S"]
+    if thorough:
+        for sid in fsids:
+            add("c15s", sid, 10001, None, 0, sid + "-csv", 1981)
+            add("c15t", sid, 10001, None, 0, sid + "-txt", 1981)
+    else:
+        flip = rnd.random() < 0.5
+        for i, sid in enumerate(["E3S", "M1X", "E4S", "M2X"]):
+            add("c15s" if (i % 2 == 0) != flip else "c15t", sid, 10001, None, 0, sid, 1981)
     return lines
